@@ -215,19 +215,21 @@ def evaluate__mod_operator(self: XPathToken, context: ta.ContextType = None) \
         return []
     elif op2 is None:
         raise self.error('XPTY0004', '2nd operand is an empty sequence')
-    elif op2 == 0 and isinstance(op2, float):
-        return math.nan
-    elif math.isinf(op2) and not math.isinf(op1) and op1 != 0:
-        return op1 if self.parser.version != '1.0' else math.nan
+    elif op2 == 0:
+        if isinstance(op1, float) or isinstance(op2, float):
+            return type(op1 * 0 + op2 * 0)(math.nan)  # NaN as xs:float or xs:double
+        raise self.error('FOAR0001')
 
     try:
-        if isinstance(op1, int) and isinstance(op2, int):
-            return op1 % op2 if op1 * op2 >= 0 else -(abs(op1) % op2)
-        return op1 % op2  # type: ignore[operator]
+        if isinstance(op1, decimal.Decimal) or isinstance(op2, decimal.Decimal):
+            return op1 % op2  # type: ignore[operator]
+        # truncating remainder, computed on absolute values: it takes the sign of the dividend
+        result = abs(op1) % abs(op2)
+        return -result if op1 < 0 or op1 == 0 and math.copysign(1, op1) < 0 else result
     except TypeError as err:
         raise self.error('FORG0006', err) from None
-    except (ZeroDivisionError, decimal.InvalidOperation):
-        raise self.error('FOAR0001') from None
+    except decimal.InvalidOperation:
+        raise self.error('FOAR0002') from None
 
 
 # Resolve the intrinsic ambiguity of some infix operators
